@@ -1,8 +1,180 @@
-(* C06 -- SAM text records and headers round-trip; SAM and BAM carry the same content (partial). *)
-From Coq Require Import List NArith ZArith.
-From NV Require Import Base.Decimal Base.DecimalProofs.
+(* C06 -- SAM text records and headers round-trip, and SAM and BAM carry the same content.
+   PARTIAL BY DESIGN.  Proved here, about the Gallina models NV.Base.Decimal, NV.Sam.Fields and
+   NV.Sam.Record (mirrors of noodles-sam io/writer/record.rs etc., io/writer/num.rs, io/reader/record_buf.rs etc.):
+   the record half of the property (one alignment line, all 11 columns and all optional-field types),
+   with float text as a Section oracle.  NOT modelled in Coq: header lines (@HD/@SQ/@RG/@PG/@CO) and
+   the SAM/BAM agreement -- those are evaluated on the implementation only (harness kinds rt/hdr). *)
+From Coq Require Import List NArith ZArith Bool Lia.
+From NV Require Import Base.Decimal Base.DecimalProofs Sam.Fields Sam.FieldsProofs Sam.Record Sam.RecordProofs.
 Import ListNotations.
+Open Scope N_scope.
 
+(* ---- decimal text (io/writer/num.rs vs lexical_core::parse) *)
 Theorem c06_decimal_parse_fmt : forall z : Z, parse_dec true (fmt_dec z) = Some z.
 Proof. exact parse_fmt. Qed.
 Print Assumptions c06_decimal_parse_fmt.
+
+Theorem c06_decimal_parse_fmt_unsigned : forall n : N, parse_dec false (fmt_dec (Z.of_N n)) = Some (Z.of_N n).
+Proof. exact parse_fmt_unsigned. Qed.
+Print Assumptions c06_decimal_parse_fmt_unsigned.
+
+(* digits and '-' only: no tab, newline, comma, colon, '+' *)
+Theorem c06_decimal_chars : forall z : Z, Forall (fun c => is_digit c = true \/ c = 45) (fmt_dec z).
+Proof. exact fmt_dec_chars. Qed.
+Print Assumptions c06_decimal_chars.
+
+(* ---- columns *)
+Theorem c06_cigar_roundtrip : forall ops, Forall wf_op ops ->
+  parse_cigar (write_cigar ops) = Some ops /\ PR (write_cigar ops).
+Proof. exact cigar_rt. Qed.
+Print Assumptions c06_cigar_roundtrip.
+
+(* Phred+33; the single score 9 is the text "*" and reads back as "missing" (norm_qual_f) *)
+Theorem c06_qual_roundtrip : forall bc q f, write_qual bc q = Some f ->
+  parse_qual bc f = Some (norm_qual_f q) /\ PR f.
+Proof. exact qual_rt. Qed.
+Print Assumptions c06_qual_roundtrip.
+
+(* RNEXT: '=' collapsing and its expansion *)
+Theorem c06_rnext_roundtrip : forall refs rid mrid nm mnm,
+  NoDup refs -> Forall refname_ok refs ->
+  ref_name refs rid = Some nm -> ref_name refs mrid = Some mnm ->
+  parse_rnext refs rid (write_rnext nm mnm) = Some mrid /\ PR (write_rnext nm mnm).
+Proof. exact rnext_rt. Qed.
+Print Assumptions c06_rnext_roundtrip.
+
+(* TAG:TYPE:VALUE for A, i (all six storage widths), f, Z, H, B (all seven subtypes); the
+   float oracle hypotheses are premises *)
+Theorem c06_aux_roundtrip :
+  forall (fmt32 fmtd32 : N -> bytes) (parse32 : bytes -> option N) (parse32p : bytes -> option (N * bytes)),
+    (forall b, finite32 b = true -> parse32 (fmt32 b) = Some b) ->
+    (forall b, PR (fmt32 b)) ->
+    (forall b rest, finite32 b = true -> (rest = [] \/ exists r, rest = 44 :: r) ->
+                    parse32p (fmtd32 b ++ rest) = Some (b, rest)) ->
+    (forall b, PR (fmtd32 b)) ->
+    forall t a f, wf_aux a -> write_field fmt32 fmtd32 (t, a) = Some f ->
+      parse_field parse32 parse32p f = Some (t, norm_aux a) /\ PR f /\ (5 <= length f)%nat.
+Proof. exact field_rt. Qed.
+Print Assumptions c06_aux_roundtrip.
+
+(* ---- the record *)
+(* The statement the property makes for one alignment line (integer tags by value): *)
+Definition c06_record_roundtrip_full_statement : Prop :=
+  forall (fmt32 fmtd32 : N -> bytes) (parse32 : bytes -> option N) (parse32p : bytes -> option (N * bytes)),
+    (forall b, finite32 b = true -> parse32 (fmt32 b) = Some b) ->
+    (forall b, PR (fmt32 b)) ->
+    (forall b rest, finite32 b = true -> (rest = [] \/ exists r, rest = 44 :: r) ->
+                    parse32p (fmtd32 b ++ rest) = Some (b, rest)) ->
+    (forall b, PR (fmtd32 b)) ->
+    forall refs r t, wf_refs refs -> wf_rec r ->
+      write_record fmt32 fmtd32 refs r = Some t ->
+      parse_line parse32 parse32p refs t = POk (norm_i r).
+
+(* It is false for the faithful model (and for noodles): known class = a single quality score 9. *)
+(* the refutation stated without having to exhibit a float oracle: for EVERY oracle the written
+   text of this valid record parses to a different record *)
+Theorem c06_record_roundtrip_refuted :
+  forall (fmt32 fmtd32 : N -> bytes) (parse32 : bytes -> option N) (parse32p : bytes -> option (N * bytes)),
+  exists r t r', wf_rec r /\ wf_refs [] /\
+    write_record fmt32 fmtd32 [] r = Some t /\
+    parse_line parse32 parse32p [] t = POk r' /\ r' <> norm_i r.
+Proof.
+  intros. exists (mkRec None 4 None 0 255 [] None 0 0%Z [65] [9] []).
+  exists [42;9;52;9;42;9;48;9;50;53;53;9;42;9;42;9;48;9;48;9;65;9;42;10].
+  exists (mkRec None 4 None 0 255 [] None 0 0%Z [65] [] []).
+  split; [|split; [|split; [|split]]].
+  - unfold wf_rec. cbn. repeat split; try constructor; try discriminate; reflexivity.
+  - split; constructor.
+  - vm_compute. reflexivity.
+  - vm_compute. reflexivity.
+  - cbn. discriminate.
+Qed.
+Print Assumptions c06_record_roundtrip_refuted.
+
+(* positive theorem, known class excluded *)
+Theorem c06_record_roundtrip_partial :
+  forall (fmt32 fmtd32 : N -> bytes) (parse32 : bytes -> option N) (parse32p : bytes -> option (N * bytes)),
+    (forall b, finite32 b = true -> parse32 (fmt32 b) = Some b) ->
+    (forall b, PR (fmt32 b)) ->
+    (forall b rest, finite32 b = true -> (rest = [] \/ exists r, rest = 44 :: r) ->
+                    parse32p (fmtd32 b ++ rest) = Some (b, rest)) ->
+    (forall b, PR (fmtd32 b)) ->
+    forall refs r t, wf_refs refs -> wf_rec r ->
+      r_qual r <> [9] ->
+      write_record fmt32 fmtd32 refs r = Some t ->
+      parse_line parse32 parse32p refs t = POk (norm_i r).
+Proof.
+  intros f fd p pp H1 H2 H3 H4 refs r t WR W NQ HW.
+  rewrite (record_roundtrip f fd p pp H1 H2 H3 H4 refs r t WR W HW).
+  f_equal. apply norm_rec_id. now apply norm_qual_not9.
+Qed.
+Print Assumptions c06_record_roundtrip_partial.
+
+(* what the text path does on EVERY accepted record (no exclusion): norm_rec = norm_i + the
+   single-score-9 -> missing collapse *)
+Theorem c06_record_roundtrip_faithful :
+  forall (fmt32 fmtd32 : N -> bytes) (parse32 : bytes -> option N) (parse32p : bytes -> option (N * bytes)),
+    (forall b, finite32 b = true -> parse32 (fmt32 b) = Some b) ->
+    (forall b, PR (fmt32 b)) ->
+    (forall b rest, finite32 b = true -> (rest = [] \/ exists r, rest = 44 :: r) ->
+                    parse32p (fmtd32 b ++ rest) = Some (b, rest)) ->
+    (forall b, PR (fmtd32 b)) ->
+    forall refs r t, wf_refs refs -> wf_rec r ->
+      write_record fmt32 fmtd32 refs r = Some t ->
+      parse_line parse32 parse32p refs t = POk (norm_rec r).
+Proof. exact record_roundtrip. Qed.
+Print Assumptions c06_record_roundtrip_faithful.
+
+(* fixed point, for every accepted record (the known class included) *)
+Theorem c06_fixed_point :
+  forall (fmt32 fmtd32 : N -> bytes) (parse32 : bytes -> option N) (parse32p : bytes -> option (N * bytes)),
+    (forall b, finite32 b = true -> parse32 (fmt32 b) = Some b) ->
+    (forall b, PR (fmt32 b)) ->
+    (forall b rest, finite32 b = true -> (rest = [] \/ exists r, rest = 44 :: r) ->
+                    parse32p (fmtd32 b ++ rest) = Some (b, rest)) ->
+    (forall b, PR (fmtd32 b)) ->
+    forall refs r t r', wf_refs refs -> wf_rec r ->
+      write_record fmt32 fmtd32 refs r = Some t ->
+      parse_line parse32 parse32p refs t = POk r' ->
+      write_record fmt32 fmtd32 refs r' = Some t.
+Proof. exact fixed_point. Qed.
+Print Assumptions c06_fixed_point.
+
+(* ---- the complete property, kept visible; header and BAM parts are NOT proved (L3 only) *)
+Section FullStatement.
+  Variable header : Type.
+  Variable write_header : header -> option bytes.
+  Variable parse_header : bytes -> option header.
+  Variable refs_of : header -> list bytes.
+  Variable bam_roundtrip : header -> list sam_rec -> option (header * list sam_rec).
+  Variable canon_bam : sam_rec -> sam_rec.   (* case folding, non-IUPAC -> N, integers by value *)
+  Variable fmt32 fmtd32 : N -> bytes.
+  Variable parse32 : bytes -> option N.
+  Variable parse32p : bytes -> option (N * bytes).
+
+  Definition c06_full_statement : Prop :=
+    (forall h t, write_header h = Some t -> parse_header t = Some h)
+    /\ (forall h r t, wf_refs (refs_of h) -> wf_rec r ->
+          write_record fmt32 fmtd32 (refs_of h) r = Some t ->
+          parse_line parse32 parse32p (refs_of h) t = POk (norm_i r))
+    /\ (forall h rs h' rs', Forall wf_rec rs -> bam_roundtrip h rs = Some (h', rs') ->
+          h' = h /\ map canon_bam rs' = map canon_bam (map norm_i rs)).
+End FullStatement.
+
+(* ---- non-vacuity: a mapped read with '=' mate, all premises hold, and the writer accepts it *)
+Example c06_example :
+  let refs := [[99;104;114;49]; [99;104;114;50]] in
+  let r := mkRec (Some [114;49]) 99 (Some 1) 2147483647 60 [(4,2);(0,3)] (Some 1) 100 (-150)%Z
+                 [65;67;71;84;78] [0;93;9;40;1] [((78,77), AInt I32 5%Z); ((88,66), AArrI I8 [(-128)%Z; 127%Z])] in
+  wf_refs refs /\ wf_rec r /\
+  write_record (fun _ => []) (fun _ => []) refs r
+  = Some [114;49;9;57;57;9;99;104;114;50;9;50;49;52;55;52;56;51;54;52;55;9;54;48;9;50;83;51;77;9;61;9;49;48;48;9;
+          45;49;53;48;9;65;67;71;84;78;9;33;126;42;73;34;9;78;77;58;105;58;53;9;88;66;58;66;58;99;44;45;49;50;56;44;49;50;55;10].
+Proof.
+  cbn zeta. split; [|split].
+  - split.
+    + repeat constructor; cbn; intuition discriminate.
+    + repeat constructor; cbn; try discriminate; try reflexivity.
+  - unfold wf_rec. cbn. repeat split; try (repeat constructor; cbn; try lia; intuition discriminate); try discriminate.
+  - vm_compute. reflexivity.
+Qed.
